@@ -599,6 +599,7 @@ class SQLTranspiler(StructureVisitor, ASTTemplate):
                 elif len(output_measures) == 1 and (
                     ds.name not in self.input_datasets
                     or name in self.input_datasets[ds.name].get_measures_names()
+                    or len(ds.get_measures_names()) == 1
                 ):
                     out_name = output_measures[0]
                 cols.append(f"{expr} AS {quote_name(out_name)}")
